@@ -2,6 +2,8 @@ import ExprModel.Gen.Opcodes
 import ExprModel.Proofs.BcCompile
 import ExprModel.Proofs.BcSound
 import ExprModel.Proofs.BcBalance
+import ExprModel.Proofs.BcSpecClass
+import ExprModel.Props.C01
 /-
 C05 — Emitted bytecode is well-formed and stack-balanced.
 
@@ -217,8 +219,60 @@ theorem compile_run_balanced_partial (cfg : CompCfg) (hcast : cfg.cast = none) {
 example : StraightLine (.binary {} "<" (.binary {} "+" (.int {} 1) (.unary {} "-" (.int {} 2))) (.int {} 3)) :=
   .binary _ _ _ _ .less .less rfl rfl (.binary _ _ _ _ .add .add rfl rfl (.int _ _) (.unary _ _ _ (.int _ _))) (.int _ _)
 
-/-- the full run-time half of the property (all constructs, including the loops whose stack height is not static);
-    it is the shape of C01's refinement theorem and is established there, here only for `StraightLine` -/
+/-! ### stack balance for every construct (from C01's refinement theorem) -/
+
+/-- Fragment level, every construct (loops, conditionals, calls included): this is C01's `compile_balanced_partial`,
+    restated here.  Wherever the fragment compiled from `n` is placed and with whatever stack it is entered (scopes
+    matching the closure context), a successful evaluation ends exactly at the end of the fragment with one more
+    value on the stack it found and the scope stack it found.  Hypotheses are C01's: operands fit 16 bits, no two
+    distinct float constants that are `==` (`+0.0`/`-0.0` share a pool slot), `Good` (pair nodes exactly inside map
+    literals, loop collections below 2^63 elements), a `mapEnv` program runs on a map. -/
+theorem compile_balanced (n : Node) (cfg : CompCfg) (pool pool' : Pool) (code : List LInstr) (F : Val → Prop)
+    (hc : compileNode cfg n pool = .ok (code, pool')) (hF : Refine.AliasFree F) (hinv : Refine.PoolInv F pool)
+    (hfl : Refine.FloatsIn F n) (P : Prog) (pre post : List LInstr)
+    (hP : P.code = (encodeAll ((pre ++ code ++ post).map (·.instr))).toArray) (hK : Refine.PoolExt pool' P.consts)
+    (hfit : Refine.FitsU16 code) (c : Cfg) (henv : Refine.EnvOK c cfg) (hg : Refine.Good (Refine.SmallColl c) n)
+    (ctx : Spec.Ctx) (s : VM) (hip : s.ip = lsize pre) (hlim : s.limit = c.budget) (hsc : Refine.ScopesOK ctx s.scopes)
+    (v : Val) (σ' : Spec.SState) (hev : Spec.eval (Refine.specOf c) ctx n (Refine.obs s) = (.ok v, σ')) :
+    ∃ t, Refine.Steps c P s t ∧ t.ip = lsize pre + lsize code ∧ t.stack.length = s.stack.length + 1 ∧
+      t.stack.tail = s.stack ∧ t.scopes = s.scopes :=
+  C01.compile_balanced_partial n cfg pool pool' code F hc hF hinv hfl P pre post hP hK hfit c henv hg ctx s hip hlim hsc
+    v σ' hev
+
+/-- **Whole runs, every construct.**  For enough fuel, a run of a compiled program on the byte-level VM either
+    succeeds — and then ends with exactly the result (the stack is empty once `Run` has popped it) and no loop scope
+    open — or fails with an ordinary error class: never by popping an empty stack / closing a missing scope
+    (`underflow`), never by running out of the model's fuel.  Proof: C01's refinement (`run = Spec.run`, final stack
+    and scopes empty) and `spec_run_ordinary` (the language definition itself never produces `underflow`, provided
+    the environment's functions do not report it: `WorldOrd`). -/
+theorem compile_run_balanced (cfg : CompCfg) (n : Node) (cp : Compiled) (F : Val → Prop) (c : Cfg)
+    (hc : compileProgram cfg n = .ok cp) (hF : Refine.AliasFree F) (hfl : Refine.FloatsIn F n)
+    (hfit : Refine.FitsU16 cp.code) (henv : Refine.EnvOK c cfg) (hg : Refine.Good (Refine.SmallColl c) n)
+    (hw : WorldOrd c.world) :
+    ∃ N, ∀ fuel, N ≤ fuel →
+      match (run c (Refine.progOf cp) fuel).1 with
+      | .ok _ => (run c (Refine.progOf cp) fuel).2.stack = [] ∧ (run c (Refine.progOf cp) fuel).2.scopes = []
+      | .error e => e ≠ .underflow ∧ e ≠ .fuel := by
+  obtain ⟨N, hN⟩ := C01.run_conforms_partial cfg n cp F c hc hF hfl hfit henv hg
+  refine ⟨N, fun fuel hf => ?_⟩
+  obtain ⟨h1, _, h3⟩ := hN fuel hf
+  cases hr : (run c (Refine.progOf cp) fuel).1 with
+  | ok v => exact h3 v hr
+  | error e =>
+    exact spec_run_ordinary (Refine.specOf c) hw _ cfg.cast n hg e (by rw [← h1, hr])
+
+/-- non-vacuity: C01's example tree `all(1..3, {# > 0 and I == 1})` in every environment whose functions fail in
+    ordinary ways -/
+example (c : Cfg) (hw : WorldOrd c.world) : ∃ N, ∀ fuel, N ≤ fuel →
+    match (run c (Refine.progOf C01.exCompiled) fuel).1 with
+    | .ok _ => (run c (Refine.progOf C01.exCompiled) fuel).2.stack = [] ∧
+               (run c (Refine.progOf C01.exCompiled) fuel).2.scopes = []
+    | .error e => e ≠ .underflow ∧ e ≠ .fuel :=
+  compile_run_balanced {} C01.exTree C01.exCompiled (fun _ => False) c C01.ex_compiles (fun _ _ h => h.elim)
+    C01.ex_floats C01.ex_fits (fun h => by cases h) (C01.ex_good c) hw
+
+/-- what is still assumed: the statement without C01's side conditions (float constants that are `==` but distinct,
+    loop collections of 2^63 elements or more, ill-formed trees, environment functions reporting `underflow`) -/
 def compile_balanced_goal : Prop :=
   ∀ (cfg : CompCfg) (n : Node) (c : Compiled), CompCfgOk cfg → compileProgram cfg n = .ok c → JumpsFit c →
     ∀ (vc : Cfg) (fuel : Nat),
